@@ -105,9 +105,8 @@ def equiv2():
     rows.append("")
     rows.append("%d refactorings: %d silent in all 19 checks, %d with at least one exit 1 (false alarm, or the "
                 "re-introduced release order of section 9 where RELEASE-ATTACHED is named), %d with exit 2 only "
-                "(extractor stops), %d no longer applicable, %d not run. The rows show the state *before* the "
-                "corrections listed below where a correction was made during the session (the matrix was not "
-                "re-run after each of them)." % (len(allnames), silent, ex1, ex2, noap, notrun))
+                "(extractor stops), %d no longer applicable, %d not run (final run, rules as committed)."
+                % (len(allnames), silent, ex1, ex2, noap, notrun))
     return "\n".join(rows)
 
 
